@@ -7,6 +7,9 @@ import leafgen as lg
 
 ID = 'C03'
 GEN = ['kernels', 'constraints']
+# the scalar kernels of functions.py this property's statement depends on (a change confined to the others is not this property's business;
+# what its own correspondence compares still is)
+KERNELS_USED = []
 PROPS = 'Props/C03.v'
 MODEL_VO = ['Model/Dev.v']
 SHARD = 12
